@@ -107,3 +107,100 @@ func SharedWrites(file, fn string) (names []string, found bool, err error) {
 	}
 	return names, found, nil
 }
+
+// CapturedCallResults returns the names of the variables that are declared in fn itself
+// (outside every function literal), whose initial value contains a function call, and that
+// some function literal inside fn refers to.  For the function that builds a stream feature
+// such a variable is computed once per feature value and then used by every session that
+// negotiates with it (the classic case: a "random" value drawn when the feature is built).
+// Conversions and builtins count as calls (the extractor does not type-check); found is
+// false when fn does not exist.
+func CapturedCallResults(file, fn string) (names []string, found bool, err error) {
+	fset := token.NewFileSet()
+	f, err := parser.ParseFile(fset, file, nil, 0)
+	if err != nil {
+		return nil, false, err
+	}
+	for _, d := range f.Decls {
+		fd, ok := d.(*ast.FuncDecl)
+		if !ok || fd.Name.Name != fn || fd.Recv != nil || fd.Body == nil {
+			continue
+		}
+		found = true
+		var lits []*ast.FuncLit
+		ast.Inspect(fd.Body, func(n ast.Node) bool {
+			if fl, ok := n.(*ast.FuncLit); ok {
+				lits = append(lits, fl)
+			}
+			return true
+		})
+		inLit := func(p token.Pos) bool {
+			for _, fl := range lits {
+				if fl.Pos() <= p && p < fl.End() {
+					return true
+				}
+			}
+			return false
+		}
+		hasCall := func(e ast.Expr) bool {
+			call := false
+			ast.Inspect(e, func(n ast.Node) bool {
+				switch n.(type) {
+				case *ast.FuncLit:
+					return false
+				case *ast.CallExpr:
+					call = true
+				}
+				return true
+			})
+			return call
+		}
+		// objects of call-initialised variables declared outside the literals
+		cand := map[*ast.Object]string{}
+		ast.Inspect(fd.Body, func(n ast.Node) bool {
+			switch x := n.(type) {
+			case *ast.FuncLit:
+				return false
+			case *ast.AssignStmt:
+				if x.Tok == token.DEFINE {
+					for i, l := range x.Lhs {
+						id, ok := l.(*ast.Ident)
+						if !ok || id.Obj == nil {
+							continue
+						}
+						rhs := x.Rhs[0]
+						if len(x.Rhs) == len(x.Lhs) {
+							rhs = x.Rhs[i]
+						}
+						if hasCall(rhs) {
+							cand[id.Obj] = id.Name
+						}
+					}
+				}
+			case *ast.ValueSpec:
+				for i, id := range x.Names {
+					if id.Obj != nil && i < len(x.Values) && hasCall(x.Values[i]) {
+						cand[id.Obj] = id.Name
+					}
+				}
+			}
+			return true
+		})
+		set := map[string]bool{}
+		for _, fl := range lits {
+			ast.Inspect(fl.Body, func(n ast.Node) bool {
+				if id, ok := n.(*ast.Ident); ok && id.Obj != nil {
+					if name, ok := cand[id.Obj]; ok && !inLit(id.Obj.Pos()) {
+						set[name] = true
+					}
+				}
+				return true
+			})
+		}
+		for n := range set {
+			names = append(names, n)
+		}
+		sort.Strings(names)
+	}
+	return names, found, nil
+}
